@@ -267,12 +267,22 @@ static FCase gen_fill() {
                    1, 1);
   c.dst.w = (int)R(1, 40);
   c.dst.h = (int)R(1, 12);
+  // rows that end exactly on a 32-bit word (and on wider vector boundaries) without padding behind them: a fill loop that
+  // touches "the next word" has nowhere to go but outside the storage (seeded C04c)
+  if (coin(30)) {
+    int per_word = std::max(1, 32 / bpp(c.dst.code()));
+    c.dst.w = per_word * (int)R(1, 4);
+    if (coin(70)) c.dst.pad = 0;
+    if (coin(60)) c.dst.fence = 1;
+  }
   if (coin(40)) {
     c.has_clip = 1;
     c.clip = gen_clip(c.dst.w, c.dst.h, 4);
   }
   int w = c.dst.w, h = c.dst.h;
-  c.boxes = vec(8, [w, h] {
+  bool whole = coin(20);
+  c.boxes = vec(8, [w, h, whole] {
+    if (whole) return Box{0, 0, w, h};
     Box b;
     b.x1 = R(-4, w + 2);
     b.y1 = R(-3, h + 2);
